@@ -4,7 +4,7 @@ Static argument: a consumer that registers-then-re-checks (or checks and registe
 the lock the producer takes) and a producer that publishes-then-notifies cannot lose a
 wake-up under any interleaving. The rules check that every site has that shape.
 """
-from rdv.core import (CheckBroken, Origins, Pos, call_matches, callee_res, strip_generics, switch_edges,
+from rdv.core import (CheckBroken, Origins, Pos, primary_edges, call_matches, callee_res, strip_generics, switch_edges,
                       term_has, term_leaves, term_str)
 
 CONFIGS = ['default']
@@ -450,6 +450,47 @@ def rule_13_5(rep, fx):
         rep.check(ok, 'R13.5', '%s/send#%d' % (b.key, k), 'Poll::register precedes try_send', 'the WaitForAcknowledgments command can be sent before the completion channel is registered with the Poll', b.where(sb))
 
 
+def rule_13_6(rep, fx):
+    rep.rule('R13.6', 'status channel producer (the other half of I2): StatusChannelSender::try_send puts the item in the channel before its waker critical section ends, and on every path that put an item in the '
+                      'channel (or found it full) signals the mio source and wakes the stored waker inside that critical section')
+    b = fx.find('dds::statusevents::StatusChannelSender::try_send')
+    rep.analysed(b)
+    og = Origins(b)
+    P = Pos(b)
+    locks = [(bb, 'term') for bb, t in b.calls() if callee_res(t).endswith('::lock') and term_has(og.of_operand(t['args'][0], bb, 'term'), lambda x: x[0] == 'field' and x[1] == 'waker')]
+    sends = [(bb, t) for bb, t in b.calls() if callee_res(t).endswith('try_send') and term_has(og.of_operand(t['args'][0], bb, 'term'), lambda x: x[0] == 'field' and x[1] == 'actual_sender')]
+    def guard_drop_blocks():
+        return [bb for bb in b.live_blocks() if b.blocks[bb]['term']['t'] == 'drop' and not b.blocks[bb]['term']['pl'].get('p')
+                and 'MutexGuard' in b.locals[b.blocks[bb]['term']['pl']['l']]]
+    # Either order of lock and send is a correct producer (send; lock; wake  or  lock; send; wake): what matters is that the
+    # item is in the channel before the critical section in which the waker slot is read ends.
+    ok = len(locks) >= 1 and len(sends) == 1 and not any(P.can_reach((g, 'term'), (sends[0][0], 'term')) for g in guard_drop_blocks())
+    rep.check(ok, 'R13.6', 'StatusChannelSender::try_send/send-not-after-unlock', 'the item is sent before the waker lock is released',
+              'StatusChannelSender::try_send can send after releasing the waker lock: a receiver that found the channel empty and stored its waker in between is never woken for this item', b.where())
+    if not sends:
+        return
+    sb = sends[0][0]
+    edges = primary_edges(b, list(switch_edges(b, fx, og)))
+    # the paths that count: the Ok edge of the send result, and every place the function builds its own Ok(..) return value
+    # (the channel-full arm reports Ok too). mio_extras' TrySendError variants are not in the local ADT table, hence the return-value form.
+    delivered = [(s_, t_) for s_, t_, cond, lab in edges if lab == 'Ok' and term_has(cond, lambda x: x[0] == 'call' and len(x) > 3 and x[3] == sb)]
+    ok_rets = [(bb, si) for bb, si, st in b.statements() if st.get('s') == 'assign' and st['lhs']['l'] == 0 and not st['lhs'].get('p')
+               and st['rv']['r'] == 'agg' and st['rv'].get('variant') == 'Ok']
+    wakes = [(bb, 'term') for bb, t in b.calls() if callee_res(t).endswith('::map') and term_has(og.of_operand(t['args'][0], bb, 'term'), lambda x: x[0] == 'call' and x[1].endswith('::lock'))]
+    sigs = [(bb, 'term') for bb, t in b.calls() if call_matches(t, 'PollEventSender::send')]
+    wk_closure = any(any(call_matches(tt, 'Waker::wake_by_ref', 'Waker::wake') for _, tt in c.calls()) for c in fx.closures_of(b))
+    ok = bool(delivered) and bool(ok_rets) and bool(wakes) and bool(sigs) and wk_closure
+    for s_, t_ in delivered:
+        for r in b.return_blocks():
+            if P.can_reach((t_, 0), (r, 'term'), avoid_pos=wakes) or P.can_reach((t_, 0), (r, 'term'), avoid_pos=sigs):
+                ok = False
+    for pos in ok_rets:
+        if not (P.every_path_passes(None, pos, via_pos=wakes, from_entry=True) and P.every_path_passes(None, pos, via_pos=sigs, from_entry=True)):
+            ok = False
+    rep.check(ok, 'R13.6', 'StatusChannelSender::try_send/signal-and-wake', 'after a send (or a full channel) the mio source is signalled and the stored waker woken on every path',
+              'StatusChannelSender::try_send can return after delivering an item without signalling the poll source and waking the stored waker', b.where())
+
+
 def run(rep, facts, tier):
     fx = facts['default']
     rep.explanation = ('Path rules on the MIR CFG of every hand-written future/stream, every synchronous read entry point and '
@@ -462,3 +503,4 @@ def run(rep, facts, tier):
     rule_13_3(rep, fx)
     rule_13_4(rep, fx)
     rule_13_5(rep, fx)
+    rule_13_6(rep, fx)
